@@ -539,46 +539,41 @@ static int Slice_Cmp(var self, var obj) {
   return cmp(s->range, o->range);
 }
 
+/* The position in the underlying iterable is kept in the Range cursor */
+
+static var Slice_Iter_Seek(struct Slice* s, int64_t pos, bool forward) {
+  struct Range* r = s->range;
+  struct Int* p = r->value;
+  if (r->step is 0 or pos < r->start or pos >= r->stop) { return Terminal; }
+  p->val = pos;
+  int64_t n = forward ? pos : (int64_t)len(s->iter) - 1 - pos;
+  var curr = forward ? iter_init(s->iter) : iter_last(s->iter);
+  for (int64_t i = 0; i < n; i++) {
+    curr = forward ? iter_next(s->iter, curr) : iter_prev(s->iter, curr);
+  }
+  return curr;
+}
+
+static var Slice_Iter_Step(struct Slice* s, var curr, int64_t step) {
+  struct Range* r = s->range;
+  struct Int* p = r->value;
+  if (p->val + step < r->start or p->val + step >= r->stop) { return Terminal; }
+  p->val += step;
+  for (int64_t i = 0; i <  step; i++) { curr = iter_next(s->iter, curr); }
+  for (int64_t i = 0; i < -step; i++) { curr = iter_prev(s->iter, curr); }
+  return curr;
+}
+
 static var Slice_Iter_Init(var self) {
   struct Slice* s = self;
   struct Range* r = s->range;
-  
-  if (r->step > 0) {
-    var curr = iter_init(s->iter);
-    for(int64_t i = 0; i < r->start; i++) {
-      curr = iter_next(s->iter, curr);
-    }
-    return curr;
-  }
-  
-  if (r->step < 0) {
-    var curr = iter_last(s->iter);
-    for (int64_t i = 0; i < (int64_t)len(s->iter)-r->stop; i++) {
-      curr = iter_prev(s->iter, curr);
-    }
-    return curr;
-  }
-
-  return Terminal;
+  return Slice_Iter_Seek(s, r->step > 0 ? r->start : r->stop-1, r->step > 0);
 }
 
 static var Slice_Iter_Next(var self, var curr) {
   struct Slice* s = self;
   struct Range* r = s->range;
-  
-  if (r->step > 0) {
-    for (int64_t i = 0; i < r->step; i++) {
-      curr = iter_next(s->iter, curr);
-    }
-  }
-  
-  if (r->step < 0) {
-    for (int64_t i = 0; i < -r->step; i++) {
-      curr = iter_prev(s->iter, curr);
-    }
-  }
-  
-  return curr;
+  return Slice_Iter_Step(s, curr, r->step);
 }
 
 static var Slice_Iter_Type(var self) {
@@ -589,43 +584,17 @@ static var Slice_Iter_Type(var self) {
 static var Slice_Iter_Last(var self) {
   struct Slice* s = self;
   struct Range* r = s->range;
-  
-  if (r->step > 0) {
-    var curr = iter_last(s->iter);
-    for(int64_t i = 0; i < (int64_t)len(s->iter)-r->stop; i++) {
-      curr = iter_prev(s->iter, curr);
-    }
-    return curr;
-  }
-  
-  if (r->step < 0) {
-    var curr = iter_init(s->iter);
-    for(int64_t i = 0; i < r->start; i++) {
-      curr = iter_next(s->iter, curr);
-    }
-    return curr;
-  }
-
-  return Terminal;
+  if (r->step is 0 or r->stop <= r->start) { return Terminal; }
+  int64_t step = r->step > 0 ? r->step : -r->step;
+  int64_t span = ((r->stop-1 - r->start) / step) * step;
+  return Slice_Iter_Seek(s,
+    r->step > 0 ? r->start + span : r->stop-1 - span, r->step < 0);
 }
 
 static var Slice_Iter_Prev(var self, var curr) {
   struct Slice* s = self;
   struct Range* r = s->range;
-  
-  if (r->step > 0) {
-    for (int64_t i = 0; i < r->step; i++) {
-      curr = iter_prev(s->iter, curr);
-    }
-  }
-  
-  if (r->step < 0) {
-    for (int64_t i = 0; i < -r->step; i++) {
-      curr = iter_next(s->iter, curr);
-    }
-  }
-  
-  return curr;
+  return Slice_Iter_Step(s, curr, -r->step);
 }
 
 static size_t Slice_Len(var self) {
